@@ -20,6 +20,7 @@ type refLog struct {
 	// term of the entry just before ents[0], when the model ever held it
 	prevIdx, prevTerm uint64
 	prevKnown         bool
+	bytes             int64 // payload bytes held (cost control of the query bundle only)
 }
 
 func (m *refLog) empty() bool { return len(m.ents) == 0 }
@@ -64,8 +65,14 @@ func (m *refLog) appendBatch(b []raftpb.Entry) {
 	if !m.empty() {
 		fi := b[0].Index
 		if fi <= m.lastEnt() {
+			for _, e := range m.ents[fi-m.first():] {
+				m.bytes -= int64(len(e.Data))
+			}
 			m.ents = m.ents[:fi-m.first()]
 		}
+	}
+	for _, e := range b {
+		m.bytes += int64(len(e.Data))
 	}
 	m.ents = append(m.ents, b...)
 }
@@ -76,6 +83,9 @@ func (m *refLog) compactTo(f uint64) {
 	}
 	if e, ok := m.get(f - 1); ok {
 		m.prevIdx, m.prevTerm, m.prevKnown = e.Index, e.Term, true
+	}
+	for _, e := range m.ents[:f-m.first()] {
+		m.bytes -= int64(len(e.Data))
 	}
 	m.ents = append([]raftpb.Entry(nil), m.ents[f-m.first():]...)
 }
